@@ -16,7 +16,7 @@ Lemma weval_lin a e : weval a e = lin a e.
 Proof.
   unfold lin. induction e as [n|x|x IHx y IHy|k x IHx|h IHh v IHv y IHy].
   - simpl. lia.
-  - destruct x; simpl; lia.
+  - destruct x as [| | | | | | | |k]; try destruct k; simpl; lia.
   - cbn [weval wconst wcoef]. rewrite IHx, IHy. cbn [all_atoms fold_right]. lia.
   - cbn [weval wconst wcoef]. rewrite IHx. cbn [all_atoms fold_right]. lia.
   - cbn [weval wconst wcoef]. destruct (mode a); auto.
@@ -77,7 +77,7 @@ Notation parse_operand := (parse_operand parse_num).
 
 (* the value an operand token denotes, printed the way the disassembler prints it *)
 Definition printer_of (k : fkind) : pkind :=
-  match k with KReg => PReg | KNum => PNumU | KIn => PIn | KOut => POut end.
+  match k with KReg => PReg | KNum => PNumU | KIn => PIn | KOut => POut | KShr j => PShr j end.
 Definition normalise_tok (a : arch) (k : fkind) (tok : string) : string :=
   match parse_operand a k tok with
   | Some b => print_field (printer_of k) (get_id b)
@@ -108,17 +108,32 @@ Proof.
   intros Hb Hn. eapply N.lt_le_trans; [apply get_id_lt|]. apply N.pow_le_mono_r; lia.
 Qed.
 
+Lemma strip_prefix_app pre s : strip_prefix pre (pre ++ s) = Some s.
+Proof. induction pre as [|c p IH]; simpl; [reflexivity|]. rewrite Ascii.eqb_refl. exact IH. Qed.
+Lemma strip_prefix_inv pre tok rest : strip_prefix pre tok = Some rest -> tok = (pre ++ rest)%string.
+Proof.
+  revert tok; induction pre as [|c p IH]; simpl; intros tok H; [congruence|].
+  destruct tok as [|d r]; [discriminate|]. destruct (Ascii.eqb c d) eqn:E; [|discriminate]. apply Ascii.eqb_eq in E. subst d.
+  rewrite (IH r H). reflexivity.
+Qed.
+
+Lemma kind_agree_shr j k : kind_agree (KShr j) (PShr k) = true -> j = k.
+Proof. destruct j, k; simpl; intro H; congruence. Qed.
+
 (* under the width limit every printer shows the plain decimal value *)
 Lemma print_field_small k p v :
   kind_agree k p = true -> (v < 2 ^ N.of_nat (width_limit p))%N ->
   print_field p v = print_field (printer_of k) v /\ (v < 2 ^ 64)%N /\
   print_field (printer_of k) v = match k with KReg => ("r" ++ print_dec v)%string | KNum => print_dec v
-                                         | KIn => ("i" ++ print_dec v)%string | KOut => ("o" ++ print_dec v)%string end.
+                                         | KIn => ("i" ++ print_dec v)%string | KOut => ("o" ++ print_dec v)%string
+                                         | KShr j => (shr_short j ++ print_dec v)%string end.
 Proof.
   intros Hk Hv.
   assert (H64 : (v < 2 ^ 64)%N).
   { destruct p; simpl in Hv; try exact Hv; (eapply N.lt_trans; [exact Hv|reflexivity]). }
-  destruct k, p; try discriminate; simpl in Hv; unfold print_field, printer_of;
+  destruct k, p; try discriminate;
+    try (match goal with H : kind_agree (KShr ?j) (PShr ?k) = true |- _ => apply kind_agree_shr in H; subst end);
+    simpl in Hv; unfold print_field, printer_of;
     rewrite ?(print_goint_small _ Hv), ?(N.mod_small _ _ H64); repeat split; auto;
     try (assert (Hv' : (v < 2 ^ 63)%N) by exact Hv; rewrite ?(print_goint_small _ Hv'); auto).
 Qed.
@@ -200,7 +215,13 @@ Proof.
         destruct w as [|c rest]; [discriminate|]. destruct (Ascii.eqb c "o"); [|discriminate].
         destruct (parse_canon rest) as [k'|] eqn:Ec; [|discriminate].
         destruct (N.ltb k' (nout a)) eqn:El; [|discriminate]. inversion Ek; subst k'.
-        simpl. rewrite parse_canon_print, El. reflexivity. }
+        simpl. rewrite parse_canon_print, El. reflexivity.
+      - right. destruct (parse_shr (shr_short k) (shr_num a k) w) as [k1|] eqn:Ek; [|discriminate].
+        inversion Ep; subst b. rewrite get_id_get_binary. unfold parse_shr in Ek |- *.
+        destruct (strip_prefix (shr_short k) w) as [rest|] eqn:Es; [|discriminate].
+        destruct (parse_canon rest) as [k'|] eqn:Ec; [|discriminate].
+        destruct (N.ltb k' (shr_num a k)) eqn:El; [|discriminate]. inversion Ek; subst k'.
+        rewrite strip_prefix_app, parse_canon_print, El. reflexivity. }
     destruct Hre as [Hre|Hre]; rewrite Hre, IHa; [|reflexivity].
     f_equal. f_equal.
     (* same width, same value *)
@@ -209,7 +230,8 @@ Proof.
       - destruct (parse_indexed _ _ w); [|discriminate]. inversion Ep. apply get_binary_nonempty.
       - eapply parse_num_nonempty; eauto.
       - destruct (parse_indexed _ _ w); [|discriminate]. inversion Ep. apply get_binary_nonempty.
-      - destruct (parse_indexed _ _ w); [|discriminate]. inversion Ep. apply get_binary_nonempty. }
+      - destruct (parse_indexed _ _ w); [|discriminate]. inversion Ep. apply get_binary_nonempty.
+      - destruct (parse_shr _ _ w); [|discriminate]. inversion Ep. apply get_binary_nonempty. }
     assert (Hb1 : 1 <= List.length b) by (destruct b; [congruence|simpl; lia]).
     apply get_id_inj.
     + rewrite !length_zeros_prefix.
